@@ -152,7 +152,12 @@ static void precond(vh::Rng & r, vh::Out & out, int typeIdx)
   auto pts = randomSet(r, CDIM);
   PointSet<PT> ps;
   for (auto & p : pts) {ps.push_back(mkPoint<PT, CDIM>(p));}
-  PointSetPreconditioner<PT> pc(ps);
+  // histories: a long-lived preconditioner is recomputed for set after set; a fresh one is used now and then
+  static PointSetPreconditioner<PT> reused;
+  PointSetPreconditioner<PT> fresh;
+  const bool useFresh = r.coin(1, 4);
+  if (useFresh) {fresh = PointSetPreconditioner<PT>(ps);} else {reused.compute(ps);}
+  const PointSetPreconditioner<PT> & pc = useFresh ? fresh : reused;
   bool ok = true; IV mn, mx, sm;
   double n = (double)pts.size();
   for (size_t a = 0; a < CDIM; ++a) {
